@@ -145,7 +145,8 @@ def workflows(draw, max_components=6, max_stages=3, names="simple", methods=("re
             else:
                 cand = "Cmp%s" % "ABCDEFGHIJ"[i]
             nm.append(cand)
-    N = draw(st.integers(2, max_n))
+    # mostly small replica counts; when allowed, sometimes two-digit ones (index order != lexicographic order)
+    N = draw(st.sampled_from([2, 3, 2, 3, 11, 12])) if max_n >= 12 else draw(st.integers(2, max_n))
     comps = []
     any_rep_source = False
     for i in range(ncomp):
@@ -172,7 +173,9 @@ def workflows(draw, max_components=6, max_stages=3, names="simple", methods=("re
         if draw(st.integers(0, 3)) == 0:
             replicate = draw(st.sampled_from(["lit"] + (["global", "stage", "comp"] if replicate_via_vars else [])))
             any_rep_source = True
-        aggregate = bool(refs) and draw(st.integers(0, 3)) == 0
+        # a consumer of a replicated region aggregates more often (the interesting wiring)
+        feeds_on_replicas = any(comps[r["p"]]["replicate"] is not None or comps[r["p"]].get("_rep") for r in refs)
+        aggregate = bool(refs) and draw(st.integers(0, 1 if feeds_on_replicas else 3)) == 0
         if aggregate:
             replicate = None
         same_stage_prod = any(stages[r["p"]] == stages[i] for r in refs)
@@ -189,10 +192,27 @@ def workflows(draw, max_components=6, max_stages=3, names="simple", methods=("re
             restart_on = draw(st.lists(st.sampled_from(["KnownIssue", "SystemIssue", "UnknownIssue",
                                                         "ResourceExhausted"]), min_size=0, max_size=2, unique=True))
             max_restarts = draw(st.sampled_from([None, 0, 1, 2]))
-        comps.append({"name": nm[i], "stage": stages[i], "refs": refs, "replicate": replicate,
+        in_region = replicate is not None or (not aggregate and any(
+            comps[r["p"]].get("_rep") for r in refs))
+        comps.append({"_rep": in_region, "name": nm[i], "stage": stages[i], "refs": refs, "replicate": replicate,
                       "aggregate": aggregate, "repeat": repeat, "shutdownOn": sorted(shutdown_on),
                       "restartHookOn": restart_on, "maxRestarts": max_restarts,
                       "lits": draw(st.lists(st.sampled_from(["-x", "1", "run", "--flag=v"]), max_size=2))})
+    for c in comps:
+        c.pop("_rep", None)
+    if replicate_via_vars:
+        # decoys: other components privately define a variable with the name that carries the replica count at
+        # global / stage scope; a component's private variables must not influence anybody else
+        used = {c["replicate"] for c in comps}
+        for c in comps:
+            if c["replicate"] in (None, "lit") and draw(st.integers(0, 2)) == 0:
+                d = {}
+                if "global" in used:
+                    d["nrep"] = N + draw(st.integers(1, 2))
+                if "stage" in used:
+                    d["nrep_s"] = N + draw(st.integers(1, 2))
+                if d:
+                    c["decoy_vars"] = d
     W = {"n": N, "components": comps}
     # sound domain: names stay unique after replication suffixes are appended
     if not unique_after_expansion(W):
@@ -248,6 +268,7 @@ def render(W, executable="echo") -> dict:
             wa["maxRestarts"] = c["maxRestarts"]
         if wa:
             d["workflowAttributes"] = wa
+        variables.update(c.get("decoy_vars") or {})
         if variables:
             d["variables"] = variables
         comps.append(d)
